@@ -15,13 +15,17 @@ def run(bid):
         subprocess.check_call(['git','init','-q','.'],cwd=f'{tmp}/repo')
         r=subprocess.run(['git','apply','--whitespace=nowarn',f'{ROOT}/benign/{bid}/patch.diff'],cwd=f'{tmp}/repo',capture_output=True,text=True)
         if r.returncode!=0: return bid,['patch does not apply: '+r.stderr.strip()]
+        outs={}
+        for attempt in range(3):
+            todo=[p for p in props if p not in outs]
+            if not todo: break
+            os.makedirs(f'{tmp}/raw',exist_ok=True)
+            subprocess.run([f'{ROOT}/bin/omnilint','-props',','.join(todo),'-repo',f'{tmp}/repo','-verif',ROOT,'-rawdir',f'{tmp}/raw'],env=env,capture_output=True)
+            for p in todo:
+                try: outs[p]=json.load(open(f'{tmp}/raw/{p}.json'))
+                except Exception: pass
         for p in props:
-            raw=f'{tmp}/{p}.json'
-            o=None
-            for attempt in range(3):
-                subprocess.run([f'{ROOT}/bin/omnilint','-prop',p,'-repo',f'{tmp}/repo','-verif',ROOT,'-raw',raw],env=env,capture_output=True)
-                try: o=json.load(open(raw)); break
-                except Exception as e: o=None
+            o=outs.get(p)
             if o is None: out.append(f'{p}: no output (3 attempts)'); continue
             if o.get('fatal'): out.append(f'{p}: FATAL {o["fatal"][:300]}')
             for v in (o.get('violations') or []):
